@@ -575,7 +575,10 @@ func runArtela(p *gen.Program, o runOpts) (out runOut) {
 	rec := &aRec{stepRec: stepRec{limit: o.limit}}
 	rec.codeSize = func(a common.Address) int { return st.GetCodeSize(a) }
 	envo := evmx.EnvOpts{Fork: o.fork, State: st, ExtraEips: o.eips, Origin: gen.EO,
-		WrapState: func(s vm.StateDB) vm.StateDB { rec.fs = &factState{StateDB: s, lastAddrWarm: -1, lastSlotWarm: -1}; return rec.fs }}
+		WrapState: func(s vm.StateDB) vm.StateDB {
+			rec.fs = &factState{StateDB: s, lastAddrWarm: -1, lastSlotWarm: -1}
+			return rec.fs
+		}}
 	e := evmx.NewEnv(envo)
 	var tee *aTee
 	var sl *alogger.StructLogger
@@ -1046,6 +1049,11 @@ func traceCmd(args []string) int {
 				if j.i%5 == 0 && evmx.ForkIndex(j.fork) >= evmx.ForkIndex("Byzantium") {
 					vs = append(vs, variant{"eips3855+3860", runOpts{fork: j.fork, gas: p.Gas, tracer: true, eips: []int{3855, 3860}, limit: *limit}})
 				}
+				if p.Limit > *limit {
+					for k := range vs {
+						vs[k].o.limit = p.Limit // a program that needs a longer recorded stream (the call-depth limit)
+					}
+				}
 				var first runOut
 				for vi, v := range vs {
 					a := runArtela(p, v.o)
@@ -1109,7 +1117,16 @@ func traceCmd(args []string) int {
 	k := 0
 	for i, p := range progs {
 		// each program runs on one fork (rotating), every 7th on all
-		if i%7 == 0 || p.AllForks {
+		if len(p.Forks) > 0 {
+			for _, f := range p.Forks {
+				for _, g := range forks {
+					if f == g {
+						jobs <- job{k, p, f}
+						k++
+					}
+				}
+			}
+		} else if i%7 == 0 || p.AllForks {
 			for _, f := range forks {
 				jobs <- job{k, p, f}
 				k++
